@@ -46,9 +46,9 @@ def explore_set(args):
     tg = sw.targets()
     out = []
     solo = {}
-    is_json = names[0] in sw.JSON_REQS or names[0] in sw.XML_REQS or names[0] in sw.JX_REQS    # (applications without a WSDL to compare)
+    is_json = names[0] in sw.JSON_REQS or names[0] in sw.XML_REQS or names[0] in sw.JX_REQS or names[0] in sw.LX_REQS    # (no WSDL comparison)
     make = (sw.make_app_json if names[0] in sw.JSON_REQS else sw.make_app_xml if names[0] in sw.XML_REQS
-            else sw.make_app_jx if names[0] in sw.JX_REQS else sw.make_app)
+            else sw.make_app_jx if names[0] in sw.JX_REQS else sw.make_app_lxml if names[0] in sw.LX_REQS else sw.make_app)
     for n in set(names):
         if n != 'wsdl':
             r0 = sw.call(WsgiApplication(make()), n)
@@ -124,7 +124,8 @@ def run(ctx, rnd):
     m1(ctx)
     sets = [('fp', 'fq'), ('fq', 'fp', 'f'), ('f', 'boom', 'invalid'), ('wsdl', 'fq'), ('g', 'fp', 'wsdl'),
             ('pt', 'pt2'), ('seg', 'pt'), ('pts', 'seg', 'pt'), ('tag1', 'tag2'), ('tag1', 'pt'),
-            ('lat', 'utf'), ('utf', 'latdecl', 'utf16'), ('reg', 'chk1'), ('jreg', 'jchk1'), ('jchk1', 'jreg', 'jchk2')]
+            ('lat', 'utf'), ('utf', 'latdecl', 'utf16'), ('reg', 'chk1'), ('jreg', 'jchk1'), ('jchk1', 'jreg', 'jchk2'),
+            ('vneg', 'vlong'), ('vlong', 'vok', 'vabc')]
     if not ctx.quick:
         sets += [('fp', 'fq', 'wsdl'), ('fp', 'fp'), ('wsdl', 'wsdl', 'fq'), ('f', 'g'), ('invalid', 'fq', 'boom'),
                  ('fp', 'fq', 'f', 'g')]
